@@ -314,7 +314,12 @@ static void run_case_p1(std::vector<Scn> const &scs, Case const &k, Result &r)
   }
   if (src != 0) {
     std::string d2 = det + ",\"step_rc\":" + std::to_string(src) + ",\"step_error\":\"" + jesc(steperr) + "\"";
-    if (s.rc != 0) r.violation("C20:step-fails-after-rejected-command:" + fn + ":" + argl, d2 + "}");
+    if (s.rc != 0) {
+      // one signature per command and kind of step error (the user's own text, which is quoted in messages, removed)
+      std::string kk; bool inq = false;
+      for (char ch : steperr) { if (ch == '"') { inq = !inq; continue; } if (inq) continue; if (isalpha((unsigned char) ch)) kk += ch; else if (kk.size() && kk.back() != '-') kk += '-'; if (kk.size() > 44) break; }
+      r.violation("C20:step-fails-after-rejected-command:" + fn + ":" + kk, d2 + ",\"argument_class\":\"" + jesc(argl) + "\"}");
+    }
     else r.count("p1_step_reports_error_after_accepted_command");
     if (!recover.empty()) r.violation("C20:module-not-recoverable-by-reset-after:" + fn + ":" + argl, d2 + ",\"recovery\":\"" + jesc(recover) + "\"}");
     if (s.rc == 0) r.seen("accepted_then_step_error", fn + ":" + argl);
